@@ -543,7 +543,14 @@ def resolve_strategy_inline_recurse(path, base, decisions):
         if chunktype not in ('AR/A', 'A/AR', 'A/A', 'AR/AR'):
             decisions.decisions.append(d)
             continue
-        if d.get('similar_insert', None) is None:
+        similar = d.get('similar_insert', None) is not None
+        if similar and chunktype == 'A/A' and any(
+                lc.get('cell_type') != rc.get('cell_type') for (lc, rc) in
+                zip(d.local_diff[0].valuelist, d.remote_diff[0].valuelist)):
+            # Cells aligned by id but of different types are not merged
+            # field by field
+            similar = False
+        if not similar:
             # Inserts not similar, cannot recurse. Markup block
             cells = make_inline_cell_conflict(base, d.local_diff, d.remote_diff)
             rdiff = []
